@@ -1,6 +1,7 @@
 import FlatccModel.Util
 import FlatccModel.Num
 import FlatccModel.ScanSwap
+import FlatccModel.Refmap
 /-! `fmodel`: executes the model's definitions on protocol lines (stdin → stdout, one result line per op line). -/
 open Flatcc Flatcc.Util
 
@@ -89,9 +90,37 @@ def sortOp (args : List String) : String :=
     | none => "nf"
   | _ => "bad-op"
 
+/-- refmap <op,op,...>: i<k>:<ref> | f<k> | r<n> | R | C ; output: results joined by ',' then ' b<buckets> c<count> inv=<ok> spec=<ok>' -/
+def refmapOp (args : List String) : String :=
+  open Flatcc.Refmap in
+  match args with
+  | [opsS] =>
+    let toks := if opsS == "_" then [] else opsS.splitOn ","
+    let ops : List Op := toks.map (fun t =>
+      let body := (t.drop 1).toString
+      if t.startsWith "i" then
+        match body.splitOn ":" with
+        | [k, r] => Op.ins (natArg k) (intArg r)
+        | _ => Op.clr
+      else if t.startsWith "f" then Op.fnd (natArg body)
+      else if t.startsWith "r" then Op.rsz (natArg body)
+      else if t == "R" then Op.rst else Op.clr)
+    -- run, collecting outputs, checking the invariant and the abstract spec after every step
+    let (m, outs, invAll, specAll, _) := ops.foldl (fun (acc : Map × List String × Bool × Bool × List Op) op =>
+      let (m, outs, iv, sp, hist) := acc
+      let (m', r) := step murmur m op
+      let hist' := op :: hist
+      let spOk := match op with
+        | .fnd k => r == spec hist k
+        | _ => true
+      (m', toString r :: outs, iv && (m'.rm.buckets > 64 || invOk murmur m') && !m'.nested, sp && spOk, hist')) (Map.init, [], true, true, [])
+    ",".intercalate outs.reverse ++ s!" b{m.rm.buckets} c{m.count} inv={invAll && invOk murmur m} spec={specAll}"
+  | _ => "bad-op"
+
 def step (line : String) : String :=
   match line.trimAscii.toString.splitOn " " with
   | "num" :: args => numOp args
+  | "refmap" :: args => refmapOp args
   | "sort" :: args => sortOp ("sort" :: args)
   | "find" :: args => sortOp ("find" :: args)
   | "findn" :: args => sortOp ("findn" :: args)
